@@ -1,18 +1,16 @@
-"""Reference model of SELFIES derivation (prototype) - no selfies imports.
+"""O2 - reference model of SELFIES derivation.  Imports nothing from selfies.
 
-Rendering of docs/source/derivation.rst in v2 symbol syntax (CHANGELOG v2.0.0),
-ambiguities resolved by tests/test_specific_cases.py.
+An executable rendering of docs/source/derivation.rst in the v2 symbol syntax of CHANGELOG v2.0.0
+([BranchL_M] -> [Branch/=Branch/#Branch L], [Expl<B>RingL] -> [<B>RingL], [...expl] dropped), as a pure function
+    decode(tokens, table) -> Mol   |  raises Reject(symbol)
+Decisions the docs leave open are frozen to the behaviour pinned by tests/test_specific_cases.py and listed in
+DESIGN.md section 4.2.
 """
 import re
 
-ELEMENTS = set("""H He Li Be B C N O F Ne Na Mg Al Si P S Cl Ar K Ca Sc Ti V Cr Mn Fe Co Ni Cu Zn Ga Ge As Se Br
-Kr Rb Sr Y Zr Nb Mo Tc Ru Rh Pd Ag Cd In Sn Sb Te I Xe Cs Ba Hf Ta W Re Os Ir Pt Au Hg Tl Pb Bi Po At Rn Fr Ra Rf Db Sg
-Bh Hs Mt Ds Rg Cn Fl Lv La Ce Pr Nd Pm Sm Eu Gd Tb Dy Ho Er Tm Yb Lu Ac Th Pa U Np Pu Am Cm Bk Cf Es Fm Md No Lr""".split())
-ORGANIC = {"B", "C", "N", "O", "S", "P", "F", "Cl", "Br", "I"}
-INDEX = ["[C]", "[Ring1]", "[Ring2]", "[Branch1]", "[=Branch1]", "[#Branch1]", "[Branch2]", "[=Branch2]",
-         "[#Branch2]", "[O]", "[N]", "[=N]", "[=C]", "[#C]", "[S]", "[P]"]
-IDX = {s: i for i, s in enumerate(INDEX)}
-ATOM_RE = re.compile(r"^\[([=#/\\]?)(\d*)([A-Z][a-z]?)(@{0,2})(?:H(\d))?(?:([+-])([1-9]\d*))?\]$")
+from mc.oracles.misc import ELEMENTS, ORGANIC, IDX, capacity
+
+ATOM_RE = re.compile(r"^\[([=#/\\]?)(\d*)([A-Z][a-z]?)(@{0,2})(?:H(\d))?(?:([+-])([1-9][0-9]*))?\]$", re.ASCII)
 BRANCH_RE = re.compile(r"^\[([=#]?)Branch([123])\]$")
 RING_RE = re.compile(r"^\[(|=|#|[-/\\][-/\\])Ring([123])\]$")
 ORD = {"": 1, "=": 2, "#": 3, "/": 1, "\\": 1, "-": 1}
@@ -20,11 +18,6 @@ ORD = {"": 1, "=": 2, "#": 3, "/": 1, "\\": 1, "-": 1}
 
 class Reject(Exception):
     pass
-
-
-def capacity(table, elem, charge):
-    k = elem if charge == 0 else "%s%+d" % (elem, charge)
-    return table[k] if k in table else table["?"]
 
 
 def classify(sym, table):
@@ -63,38 +56,42 @@ def classify(sym, table):
 
 class Mol:
     def __init__(self):
-        self.atoms = []      # keys
+        self.atoms = []      # (elem, iso, chir, h, charge)
         self.caps = []
         self.parent = []     # (parent idx, order, mark) or None
-        self.children = []   # list of child idx
-        self.ringnbrs = []   # list of (other, mark) in formation order
+        self.children = []   # child indices in derivation order
+        self.ringnbrs = []   # (other, mark) in formation order
         self.bonds = {}      # (i,j) -> order
         self.used = []
         self.roots = []
-        self.rings = []      # candidates
+        self.rings = []      # ring candidates (left, right, order, marks) in order of appearance
+        self.attr = []       # per atom: [(position, symbol) ...] enclosing branch symbols then the atom symbol
+        self.consumed = 0    # symbols consumed (positions advance over non-nop, non-dot symbols)
+
+    def summary(self):
+        return (tuple(self.atoms), tuple(sorted(self.bonds.items())))
 
 
-def tokenize(s):
-    """well-formed strings only: bracket symbols and dots."""
-    toks = re.findall(r"\[[^\[\]]*\]|\.", s)
-    if "".join(toks) != s:
-        raise ValueError("not well formed")
-    return toks
-
-
-def decode(s, table, trace=None):
-    toks = tokenize(s)
-    mol = Mol()
+def split_fragments(tokens):
+    """tokens (bracket symbols and '.') -> list of fragments of (position, symbol), [nop] dropped;
+    positions count symbols of the whole input, ignoring [nop] and '.'"""
     frags = [[]]
-    for t in toks:
+    pos = 0
+    for t in tokens:
         if t == ".":
             frags.append([])
         elif t != "[nop]":
-            frags[-1].append(t)
-    for f in frags:
+            frags[-1].append((pos, t))
+            pos += 1
+    return frags
+
+
+def decode(tokens, table, trace=None):
+    mol = Mol()
+    for f in split_fragments(tokens):
         it = iter(f)
-        _derive(it, mol, float("inf"), 0, None, table, trace)
-    # second pass
+        _derive(it, mol, float("inf"), 0, None, table, trace, [])
+    # second pass: ring candidates in order of appearance, minimal bond-order reduction
     for (l, r, order, marks) in mol.rings:
         if l == r:
             continue
@@ -103,7 +100,7 @@ def decode(s, table, trace=None):
         if lfree <= 0 or rfree <= 0:
             continue
         order = min(order, lfree, rfree)
-        k = (min(l, r), max(l, r))
+        k = (l, r) if l < r else (r, l)
         if k in mol.bonds:
             new = min(mol.bonds[k] + order, 3)
             d = new - mol.bonds[k]
@@ -119,46 +116,50 @@ def decode(s, table, trace=None):
     return mol
 
 
-def _derive(it, mol, budget, state, prev, table, trace):
+_NONE = (None, None)
+
+
+def _derive(it, mol, budget, state, prev, table, trace, stack):
     n = 0
     while state is not None and n < budget:
-        sym = next(it, None)
+        pos, sym = next(it, _NONE)
         if sym is None:
             break
         n += 1
         c = classify(sym, table)
+        kind = c[0]
         if trace is not None:
-            trace.add((c[0], min(state, 9)))
-        if c[0] == "branch":
+            trace[(kind, min(state, 7), bool(stack))] += 1
+        if kind == "branch":
             _, m, L = c
             if state > 1:
                 b = min(state - 1, m)
                 q = 0
                 for _ in range(L):
-                    q = q * 16 + IDX.get(next(it, None), 0)
+                    q = q * 16 + IDX.get(next(it, _NONE)[1], 0)
                 n += L
-                n += _derive(it, mol, q + 1, b, prev, table, trace)
+                n += _derive(it, mol, q + 1, b, prev, table, trace, stack + [(pos, sym)])
                 state = state - b
-        elif c[0] == "ring":
+        elif kind == "ring":
             _, m, L, marks = c
             if state > 0:
                 o = min(m, state)
                 q = 0
                 for _ in range(L):
-                    q = q * 16 + IDX.get(next(it, None), 0)
+                    q = q * 16 + IDX.get(next(it, _NONE)[1], 0)
                 n += L
                 mol.rings.append((max(0, prev - (q + 1)), prev, o, marks))
                 state = state - o
                 if state == 0:
                     state = None
-        elif c[0] == "eps":
+        elif kind == "eps":
             if state != 0:
                 state = None
         else:
             _, beta, mark, key, cap = c
             mu = min(beta, state, cap)
             if mu == 0 and state != 0:
-                state = None      # zero-capacity atom cannot be attached; derivation ends
+                state = None      # an atom that cannot bond is not attached; the derivation ends here
                 break
             idx = len(mol.atoms)
             mol.atoms.append(key)
@@ -166,6 +167,7 @@ def _derive(it, mol, budget, state, prev, table, trace):
             mol.children.append([])
             mol.ringnbrs.append([])
             mol.used.append(mu)
+            mol.attr.append(stack + [(pos, sym)])
             if state == 0:
                 mol.roots.append(idx)
                 mol.parent.append(None)
@@ -177,27 +179,28 @@ def _derive(it, mol, budget, state, prev, table, trace):
             prev = idx
             state = (cap - mu) or None
     while n < budget:
-        if next(it, None) is None:
+        if next(it, _NONE)[1] is None:
             break
         n += 1
     return n
 
 
 def written(mol):
-    """per-atom neighbour order as the SMILES must list it: parent, ring bonds, children.
-    entries (other, order, mark-as-seen-from-this-atom)"""
+    """per-atom neighbour order as the SMILES must list it: parent, ring bonds in formation order, children in
+    derivation order; entries (other, order, mark-as-seen-from-this-atom); marks only survive on single bonds"""
     out = []
+    bonds = mol.bonds
     for i in range(len(mol.atoms)):
         l = []
         if mol.parent[i] is not None:
             p, _, mark = mol.parent[i]
-            o = mol.bonds[(min(p, i), max(p, i))]
+            o = bonds[(p, i)]
             l.append((p, o, mark if o == 1 else None))
         for (r, mark) in mol.ringnbrs[i]:
-            o = mol.bonds[(min(r, i), max(r, i))]
+            o = bonds[(r, i) if r < i else (i, r)]
             l.append((r, o, mark if o == 1 else None))
         for ch in mol.children[i]:
-            o = mol.bonds[(i, ch)]
+            o = bonds[(i, ch)]
             mark = mol.parent[ch][2]
             l.append((ch, o, mark if o == 1 else None))
         out.append(l)
